@@ -273,8 +273,10 @@ class Check:
         cov.update(self.extra)
         ev = dict(property_id=self.prop, tier=self.tier, seed=self.seed, level=level, coverage=cov,
                   assumptions=self.assumptions, wall_s=round(time.time() - self.t0, 1), violations=len(viol))
-        os.makedirs(os.path.join(ROOT, "evidence"), exist_ok=True)
-        with open(os.path.join(ROOT, "evidence", self.prop + ".json"), "w") as f:
+        # evidence describes /repo itself; a run against another checkout (VERIF_REPO, seeded-change evaluation) leaves it alone
+        evdir = os.path.join(ROOT, "evidence") if os.environ.get("VERIF_REPO", "/repo") == "/repo" else self.tmp
+        os.makedirs(evdir, exist_ok=True)
+        with open(os.path.join(evdir, self.prop + ".json"), "w") as f:
             json.dump(ev, f, indent=1)
         if viol:
             sys.exit(1)
